@@ -280,8 +280,10 @@ def systematic(rng, n_ctx=None):
         kw = pick(rng, kws)
         tail1 = pick(rng, TAILS[:2])
         tail2 = pick(rng, TAILS)
-        # `callee(e1 == 1, e2 <tail>, kw=e3 != 2)`
-        args = [with_tail(e1, tail1), with_tail(e2, tail2), '%s=%s%s' % (kw, e3, pick(rng, TAILS[:3]))]
+        # `callee(e1 == 1[, e2 <tail>], kw=e3 != 2)`
+        args = [with_tail(e1, tail1), '%s=%s%s' % (kw, e3, pick(rng, TAILS[:3]))]
+        if rng.random() < 0.4:
+            args.insert(1, with_tail(e2, tail2))
         layout = 'flat' if rng.random() < 0.7 else pick(rng, LAYOUTS)
         call = callee + join_args(rng, args, layout)
         cname, stmt, start = in_context(rng, call, CONTEXTS[i % 3] if rng.random() < 0.6 else None)
